@@ -43,8 +43,7 @@ Proof.
   exists w, n. repeat split; try assumption.
   destruct c as [s|l].
   - destruct s as [|c0 [|d tl]]; try discriminate Hcv. cbn [bv_const_value] in Hcv. cbn [bv_cv].
-    destruct tl as [|t0 tl']; [|exact Hcv].
-    exfalso. destruct (N.eqb d c_b); injection Hcv as _ Hz; cbn in Hz; lia.
+    destruct tl as [|t0 tl']; [discriminate Hcv|exact Hcv].
   - cbn [is_bv_const] in Hc. destruct l as [|[h|?] [|[b|?] [|w' [|? ?]]]]; try discriminate Hc.
     cbn [bv_const_value] in Hcv. cbn [bv_cv].
     destruct b as [|b1 [|b2 digs]]; try discriminate Hcv.
